@@ -4,6 +4,8 @@ package core
 
 import (
 	"bytes"
+	"cmp"
+	"context"
 	"encoding/base64"
 	"encoding/binary"
 	"encoding/hex"
@@ -15,6 +17,8 @@ import (
 	"sort"
 	"strconv"
 	"strings"
+	"sync"
+	"time"
 	"unicode"
 	"unicode/utf8"
 
@@ -159,6 +163,86 @@ func VerifProbeStdlib() {
 			delete(m, k)
 		}
 		nd.Assert(len(m) == 0, "map-delete-in-range")
+	case 22: // generics, embedding, method values, labelled loops, named results with defer
+		nd.Assert(probeMax(3, n) >= 3 && probeMax("a", s) >= "a", "generics")
+		var e probeOuter
+		e.name = s
+		f := e.Name
+		nd.Assert(f() == s && probeNamer(e).Name() == s, "embedding-method-value")
+		cnt := 0
+	outer:
+		for i := 0; i < 3; i++ {
+			for j := 0; j < 3; j++ {
+				if j == 2 {
+					continue outer
+				}
+				if i == 2 {
+					break outer
+				}
+				cnt++
+			}
+		}
+		nd.Assert(cnt == 4 && probeNamed(n) == n+1, "labels-named-results")
+		arr := [3][2]int{}
+		arr[1][1] = n
+		brr := arr
+		brr[1][1]++
+		nd.Assert(arr[1][1] == n && brr[1][1] == n+1, "array-value-semantics")
+	case 23: // WaitGroup, Once, channels - goroutines started by the code under test: expected to be *unsupported*
+		var wg sync.WaitGroup
+		var once sync.Once
+		total := 0
+		var mu sync.Mutex
+		for i := 0; i < 2; i++ {
+			wg.Add(1)
+			go func() {
+				defer wg.Done()
+				once.Do(func() { total += 10 })
+				mu.Lock()
+				total++
+				mu.Unlock()
+			}()
+		}
+		wg.Wait()
+		nd.Assert(total == 12, "waitgroup-once")
+		ch := make(chan int, 1)
+		ch <- n
+		nd.Assert(<-ch == n, "channel")
+	case 24: // time and context: expected to be *unsupported* (the clock is not modelled)
+		t0 := time.Now()
+		d := time.Since(t0)
+		nd.Assert(d >= 0, "time")
+		ctx, cancel := context.WithCancel(context.Background())
+		cancel()
+		nd.Assert(ctx.Err() != nil, "context")
+	case 25: // strings with function arguments on symbolic text
+		nd.Assert(len(strings.Map(func(r rune) rune { return r }, "ab")) == 2, "strings-map")
+		nd.Assert(strings.IndexFunc("a b", unicode.IsSpace) == 1, "indexfunc")
+		nd.Assert(strings.ToUpper(s) == strings.ToUpper(s) && len(strings.TrimSpace(" "+"x"+" ")) == 1, "upper-trim")
+		parts := strings.SplitN(s+","+s, ",", 2)
+		nd.Assert(len(parts) >= 2, "splitn-symbolic")
 	}
 	nd.Reach("end")
+}
+
+type probeNamer interface{ Name() string }
+type probeInner struct{ name string }
+
+func (p probeInner) Name() string { return p.name }
+
+type probeOuter struct {
+	probeInner
+	extra int
+}
+
+func probeMax[T cmp.Ordered](a, b T) T {
+	if a > b {
+		return a
+	}
+	return b
+}
+
+func probeNamed(n int) (r int) {
+	defer func() { r++ }()
+	return n
 }
